@@ -64,6 +64,7 @@ def handlers : List (String × (Case → String)) := [
   ("sharec", Drivers.Share.runConc),
   ("connc", Drivers.Share.runConc),
   ("sharex", Drivers.Share.runScenario),
+  ("sharet", Drivers.Share.runTerm),
   ("race", Drivers.Race.run)
 ]
 
